@@ -205,7 +205,7 @@ struct B { std::vector<int> cols; };   // per column: type + 8*rep + 64*(type_le
 static CaseText serB(const B &b) { CaseText c; c.put_ints("cols", b.cols); return c; }
 static B deB(const CaseText &c) { B b; b.cols = c.get_ints<int>("cols"); return b; }
 static rc::Gen<B> genB() {
-  auto col = rc::gen::map(rc::gen::tuple(irange(0, 7), irange(0, 2), irange(1, 40), irange(0, 1)), [](const std::tuple<int, int, int, int> &t) { return std::get<0>(t) + 8 * std::get<1>(t) + 64 * std::get<2>(t) + 4096 * std::get<3>(t); });
+  auto col = rc::gen::map(rc::gen::tuple(irange(0, 7), irange(0, 2), irange(1, 40), rc::gen::weightedElement<int>({{6, 0}, {5, 1}, {1, 2}})) /* last: 0 plain column, 1 column with a logical type, 2 a group added with add_group */, [](const std::tuple<int, int, int, int> &t) { return std::get<0>(t) + 8 * std::get<1>(t) + 64 * std::get<2>(t) + 4096 * std::get<3>(t); });
   return rc::gen::mapcat(rc::gen::weightedOneOf<int>({{3, irange(0, 10)}, {2, rc::gen::element(62, 63, 64, 65, 66, 126, 127, 128, 129, 130)}, {1, irange(11, 300)}}), [col](int n) {
     return rc::gen::map(rc::gen::container<std::vector<int>>((size_t)n, col), [](const std::vector<int> &v) { B b; b.cols = v; return b; });
   });
@@ -219,28 +219,39 @@ static Verdict runB(const B &b) {
   vd.nontrivial = b.cols.size() >= 64;
   if (b.cols.size() >= 128) vd.label("past_capacity_128"); else if (b.cols.size() >= 64) vd.label("past_capacity_64");
   std::vector<std::string> names;
+  std::vector<int> leaf_of;   // element k (0-based behind the root) -> column index, -1 for a group
+  int nleaves = 0; bool any_group = false;
   for (size_t i = 0; i < b.cols.size(); i++) {
     int type = b.cols[i] % 8, rep = (b.cols[i] / 8) % 3, tl = (b.cols[i] / 64) % 64, haslt = b.cols[i] / 4096;
     // odd-sized schemas: every later name is a proper prefix of all earlier ones
     names.push_back(b.cols.size() % 2 ? "k" + std::string(b.cols.size() - i, 'a') : "col_" + std::to_string(i));
-    carquet_logical_type_t lt; memset(&lt, 0, sizeof lt); lt.id = CARQUET_LOGICAL_STRING;
-    carquet_status_t st = carquet_schema_add_column(s, names.back().c_str(), (carquet_physical_type_t)type, haslt ? &lt : nullptr, (carquet_field_repetition_t)rep, type == 7 ? tl : 0);
-    PBT_CHECK(vd, st == CARQUET_OK, "add_column %zu failed: %d", i, (int)st);
+    if (haslt == 2) {
+      int32_t gi = carquet_schema_add_group(s, names.back().c_str(), (carquet_field_repetition_t)rep, 0);
+      PBT_CHECK(vd, gi == (int32_t)i + 1, "add_group as element %zu returned index %d", i + 1, gi);
+      leaf_of.push_back(-1); any_group = true;
+    } else {
+      carquet_logical_type_t lt; memset(&lt, 0, sizeof lt); lt.id = CARQUET_LOGICAL_STRING;
+      carquet_status_t st = carquet_schema_add_column(s, names.back().c_str(), (carquet_physical_type_t)type, haslt ? &lt : nullptr, (carquet_field_repetition_t)rep, type == 7 ? tl : 0);
+      PBT_CHECK(vd, st == CARQUET_OK, "add_column %zu failed: %d", i, (int)st);
+      leaf_of.push_back(nleaves++);
+    }
     // everything added so far must still read back (growth must not lose earlier columns)
     if (i == 63 || i == 64 || i == 127 || i == 128 || i + 1 == b.cols.size()) {
-      PBT_CHECK(vd, carquet_schema_num_columns(s) == (int32_t)(i + 1) && carquet_schema_num_elements(s) == (int32_t)(i + 2), "after %zu add_column calls: %d columns, %d elements", i + 1, carquet_schema_num_columns(s), carquet_schema_num_elements(s));
+      PBT_CHECK(vd, carquet_schema_num_columns(s) == (int32_t)nleaves && carquet_schema_num_elements(s) == (int32_t)(i + 2), "after %zu add calls (%d columns): %d columns, %d elements", i + 1, nleaves, carquet_schema_num_columns(s), carquet_schema_num_elements(s));
       for (size_t k = 0; k <= i; k++) {
         int ty = b.cols[k] % 8, rp = (b.cols[k] / 8) % 3, l = (b.cols[k] / 64) % 64, hl = b.cols[k] / 4096;
         const carquet_schema_node_t *n = carquet_schema_get_element(s, (int32_t)k + 1);
-        PBT_CHECK(vd, n && names[k] == carquet_schema_node_name(n), "column %zu name lost after %zu adds", k, i + 1);
+        PBT_CHECK(vd, n && names[k] == carquet_schema_node_name(n), "element %zu name lost after %zu adds", k, i + 1);
+        if (hl == 2) { PBT_CHECK(vd, !carquet_schema_node_is_leaf(n) && (int)carquet_schema_node_repetition(n) == rp, "element %zu was added as a group with repetition %d", k, rp); continue; }
         PBT_CHECK(vd, carquet_schema_node_is_leaf(n) && (int)carquet_schema_node_physical_type(n) == ty && (int)carquet_schema_node_repetition(n) == rp, "column %zu type/repetition (%d,%d), added (%d,%d)", k, (int)carquet_schema_node_physical_type(n), (int)carquet_schema_node_repetition(n), ty, rp);
         PBT_CHECK(vd, carquet_schema_node_type_length(n) == (ty == 7 ? l : 0), "column %zu type length %d, added %d", k, carquet_schema_node_type_length(n), ty == 7 ? l : 0);
         PBT_CHECK(vd, (carquet_schema_node_logical_type(n) != nullptr) == (hl != 0), "column %zu logical type presence differs", k);
         PBT_CHECK(vd, carquet_schema_node_max_def_level(n) == (rp != 0 ? 1 : 0) && carquet_schema_node_max_rep_level(n) == (rp == 2 ? 1 : 0), "column %zu levels (%d,%d), repetition %d implies (%d,%d)", k, carquet_schema_node_max_def_level(n), carquet_schema_node_max_rep_level(n), rp, rp != 0 ? 1 : 0, rp == 2 ? 1 : 0);
-        PBT_CHECK(vd, carquet_schema_find_column(s, names[k].c_str()) == (int32_t)k, "find_column('%s') = %d", names[k].c_str(), carquet_schema_find_column(s, names[k].c_str()));
+        PBT_CHECK(vd, carquet_schema_find_column(s, names[k].c_str()) == (int32_t)leaf_of[k], "find_column('%s') = %d, it is column %d", names[k].c_str(), carquet_schema_find_column(s, names[k].c_str()), leaf_of[k]);
       }
     }
   }
+  if (any_group) vd.label("builder_with_groups");
   if (b.cols.empty()) PBT_CHECK(vd, carquet_schema_num_columns(s) == 0 && carquet_schema_num_elements(s) == 1, "empty schema reports %d columns / %d elements", carquet_schema_num_columns(s), carquet_schema_num_elements(s));
   return vd;
 }
